@@ -640,7 +640,7 @@ Definition def_stmt (m : marker) : M unit :=
 Definition extern_stmt (m : marker) : M unit :=
   assert_at K_EXTERN_KW 26 ;;; bump_any ;;; name_r ITEM_RECOVERY_SET ;;;
   b <- at_ K_L_PAREN ;; when_ b (g_param_list R TypeListFlavor) ;;;
-  r <- opt_return_signature ;; when_ (negb r) error ;;;
+  opt_return_signature ;;;
   expect K_SEMICOLON ;;; ign (complete m K_EXTERN_STMT).
 
 Definition filepath_r (recovery : list N) : M unit :=
